@@ -329,6 +329,11 @@ def main(engine, prop, argv):
             extra = engine.evidence(prop, agg) if hasattr(engine, "evidence") else {}
             exhaustive = bool(extra.pop("exhaustive", False)) and agg.n >= planned
             write_evidence(engine, prop, a.tier, a.seed, agg, wall, n_items, planned, extra, n_viol, exhaustive)
+        if hasattr(engine, "post_check") and not a.fingerprints:
+            problem = engine.post_check(prop, agg)
+            if problem:
+                print(f"HARNESS-ERROR: coverage lost: {problem}")
+                rc = max(rc, 2)
         print(f"done: items={agg.n}/{n_items} steps={agg.steps} distinct_fp={len(set(agg.fps.values()))} "
               f"states={len(agg.states)} nontrivial={len(agg.nontrivial)} violations={n_viol} wall={wall:.1f}s")
         return rc
